@@ -24,4 +24,15 @@ theorem ofCode_code (o : FnTcoRef.SockOpt) : FnTcoRef.SockOpt.ofCode o.code = so
 theorem slots_nat (rw v va : Nat) :
     (((rw : Int) - v + va) % 16) = (((rw + 16 - v % 16 + va) % 16 : Nat) : Int) := by omega
 
+/-- `pdu.name` of the PDU kinds of the collection model (only UI and I matter to `dequeue`) -/
+def kindName : Collect.Kind → String
+  | .symm => "SYMM" | .pax => "PAX" | .agf => "AGF" | .ui => "UI" | .connect => "CONNECT" | .disc => "DISC"
+  | .cc => "CC" | .dm => "DM" | .frmr => "FRMR" | .snl => "SNL" | .dps => "DPS" | .i => "I" | .rr => "RR"
+  | .rnr => "RNR" | .other => "UNKNOWN"
+
+theorem kindName_ui_i (k : Collect.Kind) :
+    (kindName k = "UI" ∨ kindName k = "I") ↔ (k = .ui ∨ k = .i) := by
+  cases k <;> simp [kindName]
+
+
 end NfcVerif.FnBridge.Tco
